@@ -35,6 +35,16 @@ pub const SEAL_PROOF: RegisteredSealProof = RegisteredSealProof::StackedDRG2KiBV
 
 /// The SMALL configuration: same code, scaled parameters (DESIGN §2.5).
 pub fn small_policy() -> Policy {
+    timing_policy(true)
+}
+
+/// SMALL timing with 64 GiB sectors: pledges and penalties are FIL-scale (a 64 GiB sector's
+/// initial pledge hits the 2 FIL cap), so a miner can hold several FIL of pledge and nothing else.
+pub fn big_policy() -> Policy {
+    timing_policy(false)
+}
+
+fn timing_policy(two_k: bool) -> Policy {
     let mut p = Policy::default();
     p.wpost_proving_period = 24;
     p.wpost_challenge_window = 6;
@@ -61,11 +71,26 @@ pub fn small_policy() -> Policy {
     p.end_of_life_claim_drop_period = 24;
     p.deal_updates_interval = 48;
     p.market_default_allocation_term_buffer = 24;
-    p.valid_post_proof_type.insert(POST_PROOF);
-    p.valid_pre_commit_proof_type.insert(SEAL_PROOF);
-    p.valid_pre_commit_proof_type.insert(RegisteredSealProof::StackedDRG2KiBV1P1_Feat_SyntheticPoRep);
-    p.valid_prove_commit_ni_proof_type.insert(SEAL_PROOF_NI);
+    if two_k {
+        p.valid_post_proof_type.insert(POST_PROOF);
+        p.valid_pre_commit_proof_type.insert(SEAL_PROOF);
+        p.valid_pre_commit_proof_type.insert(RegisteredSealProof::StackedDRG2KiBV1P1_Feat_SyntheticPoRep);
+        p.valid_prove_commit_ni_proof_type.insert(SEAL_PROOF_NI);
+    }
     p
+}
+
+pub fn is_big(vm: &Vm) -> bool {
+    !vm.policy.valid_post_proof_type.contains(POST_PROOF)
+}
+pub fn post_proof(vm: &Vm) -> RegisteredPoStProof {
+    if is_big(vm) { RegisteredPoStProof::StackedDRGWindow64GiBV1P1 } else { POST_PROOF }
+}
+pub fn seal_proof_ni(vm: &Vm) -> RegisteredSealProof {
+    if is_big(vm) { RegisteredSealProof::StackedDRG64GiBV1P2_Feat_NiPoRep } else { SEAL_PROOF_NI }
+}
+pub fn seal_proof(vm: &Vm) -> RegisteredSealProof {
+    if is_big(vm) { RegisteredSealProof::StackedDRG64GiBV1P1 } else { SEAL_PROOF }
 }
 
 #[derive(Clone, Debug)]
@@ -100,7 +125,7 @@ pub fn setup_with(vm: &Vm, ballast: bool, poor_margin: Option<TokenAmount>) -> M
     for _ in 0..2 {
         vm.tick();
     }
-    let bm = create_miner(vm, bo, bo, POST_PROOF, &fil(1000)).unwrap_or_else(|r| panic!("SETUP-FAILED ballast miner: {}", r.tree()));
+    let bm = create_miner(vm, bo, bo, post_proof(vm), &fil(1000)).unwrap_or_else(|r| panic!("SETUP-FAILED ballast miner: {}", r.tree()));
     let dep_bm: TokenAmount = vm.state_of::<MinerState>(bm).unwrap().locked_funds;
     if ballast {
         for _ in 0..40 {
@@ -113,13 +138,13 @@ pub fn setup_with(vm: &Vm, ballast: bool, poor_margin: Option<TokenAmount>) -> M
         Some(margin) => {
             // learn the deposit from a trial creation, then roll back
             let snap = vm.snapshot();
-            let t = create_miner(vm, o, w, POST_PROOF, &fil(1000)).unwrap_or_else(|r| panic!("SETUP-FAILED create miner: {}", r.tree()));
+            let t = create_miner(vm, o, w, post_proof(vm), &fil(1000)).unwrap_or_else(|r| panic!("SETUP-FAILED create miner: {}", r.tree()));
             let d: TokenAmount = vm.state_of::<MinerState>(t).unwrap().locked_funds;
             vm.restore(&snap);
             d + margin
         }
     };
-    let m = create_miner(vm, o, w, POST_PROOF, &value).unwrap_or_else(|r| panic!("SETUP-FAILED create miner: {}", r.tree()));
+    let m = create_miner(vm, o, w, post_proof(vm), &value).unwrap_or_else(|r| panic!("SETUP-FAILED create miner: {}", r.tree()));
     let dep_m: TokenAmount = vm.state_of::<MinerState>(m).unwrap().locked_funds;
     vm.bump_nonce.set(false);
     MinerCast { o, w, c, z, m, bm, bo, dep_m, dep_bm }
@@ -166,7 +191,7 @@ pub fn ni_commit(vm: &Vm, by: ActorID, m: ActorID, sectors: &[u64], deadline: u6
             })
             .collect(),
         aggregate_proof: RawBytes::new(vec![1u8; 1024]),
-        seal_proof_type: SEAL_PROOF_NI,
+        seal_proof_type: seal_proof_ni(vm),
         aggregate_proof_type: RegisteredAggregateProof::SnarkPackV2,
         proving_deadline: deadline,
         require_activation_success: true,
@@ -182,7 +207,7 @@ pub fn submit_post(vm: &Vm, by: ActorID, m: ActorID, deadline: u64, parts: &[(u6
         deadline,
         partitions: parts.iter().map(|(i, s)| PoStPartition { index: *i, skipped: bf(s) }).collect(),
         proofs: vec![PoStProof {
-            post_proof: POST_PROOF,
+            post_proof: post_proof(vm),
             proof_bytes: if bad { mcvm::BAD_PROOF.to_vec() } else { b"good-proof".to_vec() },
         }],
         chain_commit_epoch: commit_epoch,
@@ -377,7 +402,7 @@ impl MinerView {
         None
     }
     pub fn sector_power(&self, s: &SectorOnChainInfo) -> (BigInt, BigInt) {
-        let p = fil_actor_miner::power_for_sector(fvm_shared::sector::SectorSize::_2KiB, s);
+        let p = fil_actor_miner::power_for_sector(s.seal_proof.sector_size().unwrap(), s);
         (p.raw, p.qa)
     }
     pub fn has_early_terminations(&self) -> bool {
@@ -411,7 +436,7 @@ pub fn withdraw(vm: &Vm, by: ActorID, m: ActorID, amount: &TokenAmount) -> Inv {
 pub fn precommit(vm: &Vm, by: ActorID, m: ActorID, number: u64, expiration: ChainEpoch) -> Inv {
     let p = fil_actor_miner::PreCommitSectorBatchParams2 {
         sectors: vec![fil_actor_miner::SectorPreCommitInfo {
-            seal_proof: SEAL_PROOF,
+            seal_proof: seal_proof(vm),
             sector_number: number,
             sealed_cid: make_sealed_cid(format!("sealed-{m}-{number}").as_bytes()),
             seal_rand_epoch: vm.epoch() - 1,
@@ -438,7 +463,7 @@ pub fn prove_commit3(vm: &Vm, by: ActorID, m: ActorID, numbers: &[u64], bad: boo
 
 /// Earliest expiration a pre-commit may declare at `now` under `policy`.
 pub fn min_precommit_expiration(policy: &Policy, now: ChainEpoch) -> ChainEpoch {
-    now + fil_actor_miner::max_prove_commit_duration(policy, SEAL_PROOF).unwrap() + policy.min_sector_expiration
+    now + fil_actor_miner::max_prove_commit_duration(policy, if policy.valid_post_proof_type.contains(POST_PROOF) { SEAL_PROOF } else { RegisteredSealProof::StackedDRG64GiBV1P1 }).unwrap() + policy.min_sector_expiration
 }
 
 /// Decode one partition (bit-fields, memos, expiration and early-termination queues).
